@@ -46,3 +46,4 @@ def evaluate(line: str) -> str:
 # op modules register themselves
 import impl_crc  # noqa: E402,F401
 import impl_bf3  # noqa: E402,F401
+import impl_bec2  # noqa: E402,F401
